@@ -145,6 +145,7 @@ type TreeGen struct {
 	ZooLeaves        bool // one leaf in twelve is a value of an unusual Go type (genZooLeaf): only for checks that treat leaves as opaque
 	EqPolicies       bool // an accepting or rejecting equality closure on a random tenth of the nodes
 	WideRuns         bool // at most one node per tree additionally gets a run of 12..40 plain leaves (not counted against Budget)
+	Pasts            bool // a random sixth of the LIFO stacks had 1..3 more values that were popped again; a random fifth of the Conditions held another expression (a Stack, a text, a Condition) before the described one
 	Ambient          bool // neutral settings (identifier, category, aux, less, accepting closures, logger, mutex) on a random half of the nodes
 	FIFOOpt          bool
 	NilLeaves        bool
@@ -263,6 +264,9 @@ func (st *treeState) stackOpts(t *rapid.T, n *Node) {
 	if g.FIFOOpt {
 		n.FIFO = rapid.IntRange(0, 2).Draw(t, "fifo") == 0
 	}
+	if g.Pasts && !n.FIFO && rapid.IntRange(0, 5).Draw(t, "past?") == 0 {
+		n.Past = rapid.IntRange(1, 6).Draw(t, "past")
+	}
 	if g.Ambient {
 		n.Amb = drawAmbient(t, true)
 	}
@@ -369,6 +373,9 @@ func (st *treeState) cond(t *rapid.T, depth int) Node {
 		}
 		e := LeafN(v)
 		n.Expr = &e
+	}
+	if g.Pasts && rapid.IntRange(0, 4).Draw(t, "cond-past?") == 0 {
+		n.Past = rapid.IntRange(1, 3).Draw(t, "cond-past")
 	}
 	if g.UnmarshalFailers && rapid.IntRange(0, 9).Draw(t, "cond-umfail") == 0 {
 		n.UmFail = true
